@@ -97,7 +97,10 @@ func Junk() []junkT {
 		{"iface", tIface}, {"iface1", Iface(1)}, {"error", tErr}, {"named-error", NamedErr(4, Struct(tInt))},
 		{"unsafeptr", tUnsafe},
 		{"nil", tNil}, {"u-int", B("u-int")}, {"u-string", B("u-string")}, {"u-bool", B("u-bool")}, {"u-float", B("u-float")},
-		{"u-rune", B("u-rune")}, {"u-complex", B("u-complex")},
+		{"u-rune", B("u-rune")},
+		// (no u-complex here: whether the constant 1i is representable in the parameter type the
+		// plugin infers from ANOTHER argument, e.g. deriveMin([]int, 1i), depends on its value, and the
+		// ill-typed call is the user's; it is used where the constant alone decides the type, see UntypedArgs)
 		{"tuple-int-err", Tuple(tInt, tErr)}, {"tuple-func-err", Tuple(f0(tInt), tErr)}, {"tuple3", Tuple(tInt, tStr, tBool)},
 	}
 }
